@@ -170,6 +170,14 @@ func (s *Script) read(p []byte) (int, error) {
 	return s.logRead(p, 0, ErrTimeout)
 }
 
+// Reset installs a new stream and read script (for the next request call on the same transport) and clears the logs.
+func (s *Script) Reset(stream []byte, events []Event, writeErr bool) {
+	s.mu.Lock()
+	defer s.mu.Unlock()
+	s.Stream, s.Events, s.pos, s.Consumed, s.WriteErr = stream, events, 0, 0, writeErr
+	s.Writes, s.Reads, s.WriteSeqs = nil, nil, nil
+}
+
 // Snapshot returns copies of the logs.
 func (s *Script) Snapshot() (writes [][]byte, reads []ReadLog, consumed int, flushes int) {
 	s.mu.Lock()
